@@ -138,6 +138,18 @@ pub fn parse_unit(path: &str, include_dir: &str) -> Result<Unit, String> {
     let text = std::fs::read_to_string(path).map_err(|e| format!("{}: {}", path, e))?;
     let mut unit = Unit::default();
     parse_into(&text, path, include_dir, &mut unit)?;
+    // includes may bring the same rule file / type definition more than once
+    let mut seen = std::collections::BTreeSet::new();
+    unit.rules.retain(|r| seen.insert(format!("{}|{}", r.kind, r.src)));
+    let mut seen_items = std::collections::BTreeSet::new();
+    unit.items.retain(|it| match it {
+        Item::Struct { file, name, .. } => seen_items.insert(format!("{}::{}", file, name)),
+        Item::Const { file, name } => seen_items.insert(format!("{}::{}", file, name)),
+        Item::Raw(t) => seen_items.insert(format!("raw:{}", t)),
+        Item::Target(t) => seen_items.insert(format!("target:{}", t.name)),
+    });
+    let mut seen_g = std::collections::BTreeSet::new();
+    unit.drop_generics.retain(|g| seen_g.insert(g.clone()));
     Ok(unit)
 }
 
@@ -148,8 +160,23 @@ fn parse_into(text: &str, path: &str, include_dir: &str, unit: &mut Unit) -> Res
         let a_trim = a.trim().to_string();
         match d.as_str() {
             "unit" => unit.name = a_trim,
-            "prelude" => unit.preludes.extend(a_trim.split_whitespace().map(String::from)),
+            "prelude" => {
+                for f in a_trim.split_whitespace() {
+                    if !unit.preludes.iter().any(|x| x == f) {
+                        unit.preludes.push(f.to_string());
+                    }
+                }
+            }
             "lemmas" => unit.lemmas.extend(a_trim.split_whitespace().map(String::from)),
+            "include" => {
+                for f in a_trim.split_whitespace() {
+                    let p = format!("{}/{}", include_dir, f);
+                    let t = std::fs::read_to_string(&p).map_err(|e| format!("{}: {}", p, e))?;
+                    let saved = unit.name.clone();
+                    parse_into(&t, &p, include_dir, unit)?;
+                    unit.name = saved;
+                }
+            }
             "rules" => {
                 for f in a_trim.split_whitespace() {
                     let p = format!("{}/{}", include_dir, f);
